@@ -6,6 +6,7 @@ import (
 	"reflect"
 	"strings"
 
+	"github.com/nspcc-dev/neo-go/pkg/core/transaction"
 	"github.com/nspcc-dev/neo-go/pkg/io"
 	"github.com/nspcc-dev/neo-go/pkg/util"
 	"verifharness/vt"
@@ -71,12 +72,18 @@ func checkVar(c VarCase, o *vt.Obs) error {
 		if back := rd.ReadString(); rd.Err != nil || len(back) != int(n) {
 			return fmt.Errorf("ReadString(WriteString(len %d)) gives len %d, %v", n, len(back), rd.Err)
 		}
-		hs := make([]util.Uint160, n/16)
-		w = io.NewBufBinWriter()
-		w.WriteArray(hs)
-		if s := io.GetVarSize(hs); s != w.Len() {
-			if err := vd.fail(keyVarint, "io.GetVarSize([]Uint160 of len %d) = %d, WriteArray writes %d bytes", len(hs), s, w.Len()); err != nil {
-				return err
+		// Slices of serializable values (what WriteArray accepts) are sized like they are written.
+		nel := int(n % 5)
+		for _, arr := range []any{
+			make([]util.Uint160, nel), make([]util.Uint256, nel), make([]transaction.Witness, nel),
+			make([]transaction.Signer, nel), valueAttrs(nel), ptrSigners(nel),
+		} {
+			w = io.NewBufBinWriter()
+			w.WriteArray(arr)
+			if s := io.GetVarSize(arr); s != w.Len() {
+				if err := vd.fail("getvarsize-value-slices", "io.GetVarSize(%T of len %d) = %d, WriteArray writes %d bytes", arr, nel, s, w.Len()); err != nil {
+					return err
+				}
 			}
 		}
 		o.Label("with-slices")
@@ -93,6 +100,22 @@ func varSizeOf(n uint64) int {
 		return -1
 	}
 	return io.GetVarSize(int(n))
+}
+
+func valueAttrs(n int) []transaction.Attribute {
+	res := make([]transaction.Attribute, n)
+	for i := range res {
+		res[i] = transaction.Attribute{Type: transaction.ConflictsT, Value: &transaction.Conflicts{}}
+	}
+	return res
+}
+
+func ptrSigners(n int) []*transaction.Signer {
+	res := make([]*transaction.Signer, n)
+	for i := range res {
+		res[i] = &transaction.Signer{}
+	}
+	return res
 }
 
 // derefPrint renders any value including unexported fields (read-only reflection, no Interface() calls).
